@@ -571,7 +571,9 @@ class HTTP1Connection(httputil.HTTPConnection):
         if connection_header is not None:
             connection_header = connection_header.lower()
         if start_line.version == "HTTP/1.1":
-            return connection_header != "close"
+            # The header is a comma-separated list of connection options.
+            options = (connection_header or "").split(",")
+            return "close" not in [opt.strip() for opt in options]
         elif (
             "Content-Length" in headers
             or is_transfer_encoding_chunked(headers)
